@@ -329,6 +329,7 @@ def gen_entry(rng, wild):
 def gen_prog(rng, n, wild, depth=0, malformed=False):
     p = ("new",)
     frozen = False
+    merged = []
     for _ in range(n):
         r = rng.random()
         if frozen and not malformed and r < 0.7:
@@ -339,9 +340,13 @@ def gen_prog(rng, n, wild, depth=0, malformed=False):
             c, raw = gen_entry(rng, wild)
             p = ("add", p, c, rng.random() < 0.5, raw)
         elif r < 0.74 and depth < 2:
-            q = gen_prog(rng, rng.randrange(0, 4), wild, depth + 1)
-            if rng.random() < 0.7:
-                q = ("freeze", q)
+            if merged and rng.random() < 0.3:
+                q = rng.choice(merged)   # diamond: the SAME (frozen, hence shared) dict merged a second time
+            else:
+                q = gen_prog(rng, rng.randrange(0, 4), wild, depth + 1)
+                if rng.random() < 0.7:
+                    q = ("freeze", q)
+                    merged.append(q)
             p = ("merge", p, q)
         elif r < 0.80:
             if malformed or rng.random() < 0.3:
@@ -426,12 +431,16 @@ def main(chk: Check):
             return SIMPLE[s[1]]
         return VER[(s[1], s[2])]
 
-    def run_real(prog):
+    def run_real(prog, shared=None):
+        """equal frozen sub-histories of one program are built once and are the SAME object wherever they
+        occur (as cached profile nodes are when reached through two parents)"""
+        if shared is None:
+            shared = {}
         t = prog[0]
         if t == "new":
             return ChunkedDataDict()
         if t == "add":
-            d = run_real(prog[1])
+            d = run_real(prog[1], shared)
             c, bare, raw = prog[2], prog[3], prog[4]
             if c[0][0] == "A" and bare:
                 d.add_bare_global(raw[0], raw[1])
@@ -439,16 +448,19 @@ def main(chk: Check):
                 d.update_from_stream([chunked_data(real_scope(c[0]), raw[0], raw[1])])
             return d
         if t == "merge":
-            d = run_real(prog[1])
-            d.merge(run_real(prog[2]))
+            d = run_real(prog[1], shared)
+            d.merge(run_real(prog[2], shared))
             return d
         if t == "freeze":
-            d = run_real(prog[1])
+            if prog in shared:
+                return shared[prog]
+            d = run_real(prog[1], shared)
             d.freeze()
+            shared[prog] = d
             return d
         if t == "clone":
-            return run_real(prog[1]).clone(unfreeze=prog[2])
-        d = run_real(prog[1])
+            return run_real(prog[1], shared).clone(unfreeze=prog[2])
+        d = run_real(prog[1], shared)
         d.optimize(cache={} if prog[2] else None)
         return d
 
@@ -505,6 +517,10 @@ def main(chk: Check):
         P(K_(("S", 0), (), ("py_t_x_1", "py_t_a", "foo_x_1")), K_(("V", 0, 1), ("py_t_*",), ("a",))),
         P(K_(("S", 1), (), ("foo_x_1", "foo_a")), "freeze", "clone", K_(("S", 1), ("foo_*",), ("foo_b",))),
         P(A_(("foo_*", "py_t_*"), ("b",))),
+        # round 5: the same frozen dict object merged twice, another one overriding it in between
+        ("merge", ("merge", ("merge", ("new",), P(A_((), ("a",)), K_(("S", 0), (), ("b",)), "freeze")),
+                   P(A_(("a",), ()), K_(("S", 0), ("b",), ()), "freeze")),
+         P(A_((), ("a",)), K_(("S", 0), (), ("b",)), "freeze")),
         # (d) optimize on an unfrozen dict, then add to the same key
         P(K_(("S", 0), (), ("a",)), "opt", K_(("S", 0), (), ("b",))),
     ]
@@ -523,10 +539,14 @@ def main(chk: Check):
     def raw_prop(cls, name):
         return cls.__dict__[name].function.args[0]   # the function under load_property
 
+    class _Node:   # identity equality/hash, like a cached ProfileNode
+        pass
+
     def fake_node(g, ents):
         """a profile node with use.mask lines for the global entry g and one package.use.mask
         line per entry; parsed by the real ProfileNode code"""
-        n = types.SimpleNamespace(eapi_atom=atom)
+        n = _Node()
+        n.eapi_atom = atom
         n._parse_use = types.MethodType(profiles_mod.ProfileNode._parse_use, n)
         n._parse_package_use = types.MethodType(profiles_mod.ProfileNode._parse_package_use, n)
         glines = [("-" + t, 1, "use.mask") for t in (g[1][0] if g else ())] + \
@@ -563,9 +583,15 @@ def main(chk: Check):
         if rng.random() < 0.15:
             use.append("-" + rng.choice(WILD))
         user = [gen_entry(rng, 0.15) for _ in range(rng.choice([0, 1, 2, 3]))]
-        return nodes, use, user
+        # stack order; with diamond inheritance a node reached through two parents is ONE object that occurs
+        # twice (base, left, base, right, top)
+        order = list(range(len(nodes)))
+        if len(nodes) >= 2 and rng.random() < 0.4:
+            i = rng.randrange(len(nodes) - 1)
+            order.insert(rng.randrange(i + 2, len(order) + 1), i)
+        return nodes, use, user, order
 
-    def wire_progs(nodes, use, user):
+    def wire_progs(nodes, use, user, order=None):
         """-> (prog_masked, maker_masked, prog_enabled, maker_enabled)"""
         def node_base(g):
             b = ("new",)
@@ -579,7 +605,8 @@ def main(chk: Check):
             return p
         pm = ("new",)
         pu = ("new",)
-        for g, ents in nodes:
+        order = list(range(len(nodes))) if order is None else order
+        for g, ents in (nodes[i] for i in order):
             nb = node_base(g)
             pm = ("merge", pm, ("freeze", adds(("clone", nb, True), ents)) if ents else nb)
             pu = ("merge", pu, ("freeze", adds(("new",), ents)))
@@ -591,7 +618,8 @@ def main(chk: Check):
         pe = ("freeze", adds(("merge", ("add", ("new",), uc, True, (neg, pos)), pu), user))
 
         def stack():
-            return types.SimpleNamespace(stack=[fake_node(g, ents) for g, ents in nodes])
+            objs = [fake_node(g, ents) for g, ents in nodes]
+            return types.SimpleNamespace(stack=[objs[i] for i in order])
 
         def mk_masked():
             return profiles_mod.ProfileStack._collapse_use_dict(stack(), "masked_use")
@@ -604,6 +632,19 @@ def main(chk: Check):
         return pm, mk_masked, pe, mk_enabled
 
     makers = {}
+    # round 5: diamond inheritance (one node object twice in the stack); the first branch overrides the shared node
+    def _g(neg, pos):
+        return A_(neg, pos)
+    wire_corpus = [
+        ([(_g((), ("a",)), []), (_g(("a",), ()), []), (None, [])], [], [], [0, 1, 0, 2]),
+        ([(None, [K_(("S", 0), (), ("b",))]), (None, [K_(("S", 0), ("b",), ("c",))]), (_g((), ("d",)), [])],
+         ["a"], [], [0, 1, 0, 2]),
+    ]
+    for wc in wire_corpus:
+        pm, mkm, pe, mke = wire_progs(*wc)
+        for pr, mk in ((pm, mkm), (pe, mke)):
+            makers[len(progs)] = mk
+            progs.append(pr)
     for i in range(budget(45, 200, 800)):
         pm, mkm, pe, mke = wire_progs(*gen_wire(rng))
         for pr, mk in ((pm, mkm), (pe, mke)):
